@@ -4,6 +4,7 @@ package c14
 
 import (
 	"fmt"
+	"runtime"
 	"testing"
 	"unsafe"
 
@@ -21,24 +22,127 @@ func init() { keepResult = checker.Keep }
 func TestMain(m *testing.M) { vk.Main(m, "C14") }
 
 type Case struct {
-	Op     string   `json:"op"`            // join | getw | slice | maxslice | maxgetw
-	Max    int      `json:"max,omitempty"` // maxslice/maxgetw: description of the maximum bitmap (exactly 2^25 words = 2^31 bits, gen.UseMax)
-	W      int32    `json:"w,omitempty"`
-	Values vk.Words `json:"values,omitempty"`
-	Words  vk.Words `json:"words,omitempty"`
-	From   int32    `json:"from,omitempty"`
-	To     int32    `json:"to,omitempty"`
-	Class  string   `json:"class,omitempty"`
+	Op     string       `json:"op"`            // join | getw | slice | maxslice | maxgetw | maxjoin
+	Max    int          `json:"max,omitempty"` // maxslice/maxgetw/maxjoin: description of the maximum bitmap (exactly 2^25 words = 2^31 bits, gen.UseMax) / of the maximum value list
+	W      int32        `json:"w,omitempty"`
+	Values vk.Words     `json:"values,omitempty"`
+	List   *ListSpec    `json:"list,omitempty"` // join: the value list, described (long lists, element-wise mixes); used when Values is absent
+	Words  vk.Words     `json:"words,omitempty"`
+	Big    *gen.BigSpec `json:"big,omitempty"` // slice: the bitmap, described (long bitmaps); used when Words is absent
+	From   int32        `json:"from,omitempty"`
+	To     int32        `json:"to,omitempty"`
+	Class  string       `json:"class,omitempty"`
+}
+
+// ListSpec describes a value list for Join compactly; Expand is a pure function of it and the width.
+// Every value is "low bits that fit the width" plus - for the elements the pattern selects - bits above the width.
+type ListSpec struct {
+	N    int    `json:"n"`
+	Key  vk.U64 `json:"key"`
+	Low  int    `json:"low"`  // the w low bits: 0 random, 1 all ones, 2 zero, 3 the index
+	High int    `json:"high"` // what a selected element carries above the width: 0 random bits, 1 all ones, 2 only bit w, 3 only bit 63, 4 one random bit
+	Mod  int    `json:"mod"`  // selected: Mod > 0: indexes i with bit i%Mod of Mask set; Mod == 0: only index Mask
+	Mask vk.U64 `json:"mask"`
+}
+
+func (s ListSpec) wide(i int) bool {
+	if s.Mod <= 0 {
+		return uint64(i) == uint64(s.Mask)
+	}
+	return uint64(s.Mask)>>(uint(i%s.Mod)&63)&1 == 1
+}
+
+// Expand builds the list (splitmix64 in counter mode over the drawn key: no independent random source).
+func (s ListSpec) Expand(w int32) []uint64 {
+	if s.N <= 0 || w < 1 || w > 64 {
+		return []uint64{}
+	}
+	vals := make([]uint64, s.N)
+	for i := range vals {
+		r := vk.Mix(uint64(s.Key) + uint64(i)*0x9e3779b97f4a7c15)
+		var lo uint64
+		switch s.Low {
+		case 0:
+			lo = r
+		case 1:
+			lo = ^uint64(0)
+		case 2:
+		default:
+			lo = uint64(i)
+		}
+		lo = low(lo, w)
+		if w < 64 && s.wide(i) {
+			var hi uint64
+			switch s.High {
+			case 0:
+				hi = vk.Mix(r ^ 0x5bd1e995)
+			case 1:
+				hi = ^uint64(0)
+			case 2:
+				hi = 1 << uint(w)
+			case 3:
+				hi = 1 << 63
+			default:
+				hi = 1 << (uint(w) + uint(vk.Mix(r^0xabcd)%uint64(64-w)))
+			}
+			hi &^= uint64(1)<<uint(w) - 1
+			if hi == 0 {
+				hi = 1 << 63
+			}
+			lo |= hi
+		}
+		vals[i] = lo
+	}
+	return vals
+}
+
+// one-entry memo of the last expansions (pure functions of the key: classify and check both need them)
+var lastList struct {
+	ok   bool
+	spec ListSpec
+	w    int32
+	vals []uint64
+}
+
+var lastBig struct {
+	ok    bool
+	spec  gen.BigSpec
+	words []uint64
+}
+
+func (c Case) values() []uint64 {
+	if c.Values != nil || c.List == nil {
+		return c.Values
+	}
+	if !lastList.ok || lastList.spec != *c.List || lastList.w != c.W {
+		lastList.ok, lastList.spec, lastList.w, lastList.vals = true, *c.List, c.W, c.List.Expand(c.W)
+	}
+	return lastList.vals
+}
+
+func (c Case) words() []uint64 {
+	if c.Words != nil || c.Big == nil {
+		return c.Words
+	}
+	if c.Big.N < 0 || c.Big.N > 1<<22 {
+		return nil
+	}
+	if !lastBig.ok || lastBig.spec != *c.Big {
+		lastBig.ok, lastBig.spec, lastBig.words = true, *c.Big, c.Big.Expand()
+	}
+	return lastBig.words
 }
 
 var widths = []int32{1, 2, 4, 8, 16, 32, 64}
 
 var checker = &vk.Checker[Case]{
 	ID: "C14",
-	Rule: "Join: width in {1,2,4,8,16,32,64} x value lists of length 0..200 whose values carry bits above the width (random, all-ones, 1<<w); result checked bit by bit, length ceil(len*w/64), Getw at every index; Getw alone on arbitrary bitmaps at every index; " +
-		"Slice on bitmaps <= 12 words (thorough <= 100) x ranges 0<=from<=to<=64*len (aligned, unaligned, empty, multi-word): length ceil((to-from)/64), bit j = input bit from+j, remaining bits 0, input unchanged. Grid: Slice on 12 bitmaps of <= 3 words x all (from,to); Join/Getw all widths x lengths 0..20 x 3 value styles. " +
-		"Also the MAXIMUM bitmap - exactly 2^25 words = 2^31 bits, the largest one int32 positions address (three sparse descriptions, oracle from the description): Slice of short ranges ending at the top and around every set word, Getw at the last indexes of every width; thorough also slices the whole bitmap. " +
-		"A result may share memory with the argument (not forbidden), not with the library: results are re-read after later calls. Non-trivial: Join with w>=4, >=2 values and a value with bits above w; Slice with unaligned from spanning >= 2 input words; Getw with w>=4 on a bitmap with both 0 and 1 bits. Distinct by hash of the case.",
+	Rule: "Join: width in {1,2,4,8,16,32,64} x value lists whose values carry bits above the width (random, all-ones, 1<<w) of length 0..200, and described lists of length 0..20000 (thorough 120000; half of them <= 40, the others uniform over the octaves) in which only SOME values carry bits above the width (one value, one residue of the index mod 2/3/4/5/8/16/64, random residue sets, all, none); result checked bit by bit, length ceil(len*w/64), Getw at every index; Getw alone on arbitrary bitmaps at every index; " +
+		"Slice on bitmaps <= 12 words (thorough <= 100) and on described bitmaps of up to 8192 words (thorough 32768) x ranges 0<=from<=to<=64*len (aligned, unaligned, empty, multi-word, lengths from every octave, ending at the end of the bitmap): length ceil((to-from)/64), bit j = input bit from+j, remaining bits 0, input unchanged. " +
+		"Grid: Slice on 12 bitmaps of <= 3 words x all (from,to); Join/Getw all widths x lengths 0..20 x 3 value styles; Join widths < 64 x lengths 0..24,31..33,63..65 x bits above the width at one index residue mod 2/3/4/8 or in one value; Join list lengths and Slice range lengths 2^k-1, 2^k, 2^k+1 and two more per octave (lists 2^5..2^16 and 65535..100001 values, ranges 2^9..2^20 bits at 5 start alignments each). " +
+		"Arguments reach the library as an exact-size copy, a reused buffer with guarded spare capacity, or a window inside a larger buffer of non-zero words; empty arguments also as nil. " +
+		"Also the MAXIMUM bitmap - exactly 2^25 words = 2^31 bits, the largest one int32 positions address (three sparse descriptions, oracle from the description): Slice of short ranges ending at the top and around every set word and of one range longer than 2^31-64 bits (thorough: three), Getw at the last indexes of every width; Join of 2^25 64-bit values (that bitmap) and of 2^26 sparse 32-bit values (thorough also 2^27 x 16, 2^28 x 8): 2^31 result bits. " +
+		"A result may share memory with the argument (not forbidden), not with the library: results are re-read after later calls. Non-trivial: Join with w>=4, >=2 values and a value with bits above w; Slice with unaligned from spanning >= 2 input words; Getw with w>=4 on a bitmap with both 0 and 1 bits; every maximum-size case. Distinct by hash of the case.",
 	Check:    check,
 	Classify: classify,
 }
@@ -52,37 +156,110 @@ func low(v uint64, w int32) uint64 {
 	return v & (uint64(1)<<uint(w) - 1)
 }
 
-func checkJoin(keep []uint64, w int32) (f *vk.Failure) {
-	values := append(make([]uint64, 0, len(keep)), keep...) // private copy for the code under test ...
-	reused := scratch.Reuse(vk.SumU64(keep) + uint64(w))
-	if reused {
-		values = scratch.U64(keep) // ... or a reused buffer with guarded spare capacity
+// How the argument list / bitmap reaches the library (the statement speaks of values; code may - wrongly - depend on
+// the shape): a fresh exact-size copy, a reused buffer with guarded spare capacity (vk.Scratch), or a window carved
+// out of a larger buffer that has foreign non-zero words before and after it. The choice is a function of a checksum
+// of the case. An EMPTY argument is handed over in every shape, nil included.
+const (
+	shapeAuto = iota
+	shapeNil
+	shapeEmpty
+)
+
+var shapeNames = []string{"", " (nil argument)", " (empty non-nil argument)"}
+
+// carve returns a copy of keep that sits off..off+len inside a larger buffer of non-zero words, and a guard
+// that reports a write outside the window.
+func carve(keep []uint64, h uint64) ([]uint64, func() string) {
+	off := int(h>>8)%3 + 1
+	buf := make([]uint64, off+len(keep)+3)
+	for i := range buf {
+		buf[i] = 0xF0E1D2C3B4A59687 ^ uint64(i)*0x0101010101010101
 	}
-	defer func() { f = spare(f, reused) }()
+	copy(buf[off:], keep)
+	return buf[off : off+len(keep)], func() string {
+		for i := range buf {
+			if (i < off || i >= off+len(keep)) && buf[i] != 0xF0E1D2C3B4A59687^uint64(i)*0x0101010101010101 {
+				return fmt.Sprintf("the memory around a []uint64 argument was written: word %d relative to its start (length %d) is now %#x", i-off, len(keep), buf[i])
+			}
+		}
+		return ""
+	}
+}
+
+// argument builds the slice handed to the library.
+func argument(keep []uint64, sum uint64, shape int) (arg []uint64, reused bool, guard func() string) {
+	switch {
+	case shape == shapeNil:
+		vk.Label("argument:nil", 1)
+		return nil, false, nil
+	case shape == shapeEmpty:
+		vk.Label("argument:empty-non-nil", 1)
+		return []uint64{}, false, nil
+	case scratch.Reuse(sum):
+		vk.Label("argument:reused-buffer", 1)
+		return scratch.U64(keep), true, nil // a reused buffer with guarded spare capacity
+	case len(keep) > 0 && vk.Mix(sum^0xca57ed)&3 == 0:
+		vk.Label("argument:window-in-larger-buffer", 1)
+		arg, guard = carve(keep, vk.Mix(sum^0xca57ed))
+		return arg, false, guard
+	}
+	vk.Label("argument:exact-size-copy", 1)
+	return append(make([]uint64, 0, len(keep)), keep...), false, nil // a private exact-size copy
+}
+
+func checkJoin(keep []uint64, w int32) *vk.Failure {
+	if len(keep) == 0 {
+		for _, shape := range []int{shapeNil, shapeEmpty} {
+			if f := checkJoinShaped(keep, w, shape); f != nil {
+				return f
+			}
+		}
+	}
+	return checkJoinShaped(keep, w, shapeAuto)
+}
+
+func checkJoinShaped(keep []uint64, w int32, shape int) (f *vk.Failure) {
+	values, reused, guard := argument(keep, vk.SumU64(keep)+uint64(w), shape)
+	defer func() {
+		f = spare(f, reused)
+		if f == nil && guard != nil {
+			if msg := guard(); msg != "" {
+				f = vk.Failf("argument-surroundings-written", "Join(%d values, w=%d): %s", len(keep), w, msg)
+			}
+		}
+	}()
+	what := shapeNames[shape]
 	var r []uint64
-	if f := vk.Try(fmt.Sprintf("Join(%d values, w=%d)", len(values), w), func() { r = bitmap.Join(values, w) }); f != nil {
+	if f := vk.Try(fmt.Sprintf("Join(%d values, w=%d)%s", len(values), w, what), func() { r = bitmap.Join(values, w) }); f != nil {
 		return f
 	}
-	total := len(values) * int(w)
+	total := len(keep) * int(w)
 	if len(r) != (total+63)/64 {
-		return vk.Failf("join-len", "Join(%d values, w=%d) has %d words, want %d", len(values), w, len(r), (total+63)/64)
+		return vk.Failf("join-len", "Join(%d values, w=%d)%s has %d words, want %d", len(keep), w, what, len(r), (total+63)/64)
 	}
-	for q := 0; q < 64*len(r); q++ {
-		want := uint64(0)
-		if q < total {
-			want = keep[q/int(w)] >> (uint(q) % uint(w)) & 1
-		}
-		if bit(r, q) != want {
-			return vk.Failf("join-bit", "Join(values=%#x, w=%d): bit %d = %d, want %d", values, w, q, bit(r, q), want)
+	// bit by bit: bit q of the result is bit q%w of value q/w (a running position instead of a division per bit)
+	q := 0
+	for i, v := range keep {
+		for k := uint(0); k < uint(w); k++ {
+			if got, want := r[q>>6]>>(uint(q)&63)&1, v>>k&1; got != want {
+				return vk.Failf("join-bit", "Join(values=%s, w=%d): bit %d (bit %d of value %d = %#x) = %d, want %d", showWords(keep), w, q, k, i, v, got, want)
+			}
+			q++
 		}
 	}
-	for i := range values {
+	for ; q < 64*len(r); q++ {
+		if bit(r, q) != 0 {
+			return vk.Failf("join-bit", "Join(values=%s, w=%d): bit %d (beyond the %d bits of the values) = 1, want 0", showWords(keep), w, q, total)
+		}
+	}
+	for i := range keep {
 		var g uint64
-		if f := vk.Try(fmt.Sprintf("Getw(i=%d,w=%d)", i, w), func() { g = bitmap.Getw(r, int32(i), w) }); f != nil {
+		if f := vk.TryF(func() string { return fmt.Sprintf("Getw(Join(%d values, w=%d), i=%d, w=%d)", len(keep), w, i, w) }, func() { g = bitmap.Getw(r, int32(i), w) }); f != nil {
 			return f
 		}
 		if g != low(keep[i], w) {
-			return vk.Failf("join-getw", "Getw(Join(values,w=%d), %d, %d) = %#x, want %#x", w, i, w, g, low(keep[i], w))
+			return vk.Failf("join-getw", "Getw(Join(values=%s,w=%d), %d, %d) = %#x, want %#x", showWords(keep), w, i, w, g, low(keep[i], w))
 		}
 	}
 	for i := range keep {
@@ -114,6 +291,14 @@ func checkJoin(keep []uint64, w int32) (f *vk.Failure) {
 	return nil
 }
 
+// showWords prints a short list in full and a long one abbreviated (the case file has the complete input).
+func showWords(w []uint64) string {
+	if len(w) <= 64 {
+		return fmt.Sprintf("%#x", w)
+	}
+	return fmt.Sprintf("[%d words: %#x ... %#x]", len(w), w[:8], w[len(w)-4:])
+}
+
 // overlaps reports whether the backing arrays (up to capacity) of two slices share memory.
 func overlaps(a, b []uint64) bool {
 	if cap(a) == 0 || cap(b) == 0 {
@@ -133,11 +318,11 @@ func checkGetw(keep []uint64, w int32) *vk.Failure {
 			want |= bit(keep, i*int(w)+k) << uint(k)
 		}
 		var g uint64
-		if f := vk.Try(fmt.Sprintf("Getw(i=%d,w=%d)", i, w), func() { g = bitmap.Getw(words, int32(i), w) }); f != nil {
+		if f := vk.TryF(func() string { return fmt.Sprintf("Getw(bm of %d words, i=%d, w=%d)", len(words), i, w) }, func() { g = bitmap.Getw(words, int32(i), w) }); f != nil {
 			return f
 		}
 		if g != want {
-			return vk.Failf("getw", "Getw(bm=%#x, i=%d, w=%d) = %#x, want %#x", words, i, w, g, want)
+			return vk.Failf("getw", "Getw(bm=%s, i=%d, w=%d) = %#x, want %#x", showWords(keep), i, w, g, want)
 		}
 	}
 	return nil
@@ -154,20 +339,38 @@ func spare(f *vk.Failure, reused bool) *vk.Failure {
 	return f
 }
 
-func checkSlice(keep []uint64, from, to int32) (f *vk.Failure) {
-	words := append(make([]uint64, 0, len(keep)), keep...) // private copy for the code under test ...
-	reused := scratch.Reuse(vk.SumU64(keep) + uint64(from)*3 + uint64(to))
-	if reused {
-		words = scratch.U64(keep) // ... or a reused buffer with guarded spare capacity
+func checkSlice(keep []uint64, from, to int32) *vk.Failure {
+	if from < 0 || from > to || int64(to) > 64*int64(len(keep)) {
+		return nil // outside the quantifier (a hand-edited case file)
 	}
-	defer func() { f = spare(f, reused) }()
+	if len(keep) == 0 {
+		for _, shape := range []int{shapeNil, shapeEmpty} {
+			if f := checkSliceShaped(keep, from, to, shape); f != nil {
+				return f
+			}
+		}
+	}
+	return checkSliceShaped(keep, from, to, shapeAuto)
+}
+
+func checkSliceShaped(keep []uint64, from, to int32, shape int) (f *vk.Failure) {
+	words, reused, guard := argument(keep, vk.SumU64(keep)+uint64(from)*3+uint64(to), shape)
+	defer func() {
+		f = spare(f, reused)
+		if f == nil && guard != nil {
+			if msg := guard(); msg != "" {
+				f = vk.Failf("argument-surroundings-written", "Slice(bm of %d words, %d, %d): %s", len(keep), from, to, msg)
+			}
+		}
+	}()
+	what := shapeNames[shape]
 	var r []uint64
-	if f := vk.Try(fmt.Sprintf("Slice(%d words, %d, %d)", len(words), from, to), func() { r = bitmap.Slice(words, from, to) }); f != nil {
+	if f := vk.Try(fmt.Sprintf("Slice(%d words, %d, %d)%s", len(words), from, to, what), func() { r = bitmap.Slice(words, from, to) }); f != nil {
 		return f
 	}
 	n := int(to - from)
 	if len(r) != (n+63)/64 {
-		return vk.Failf("slice-len", "Slice(bm of %d words, %d, %d) has %d words, want %d", len(words), from, to, len(r), (n+63)/64)
+		return vk.Failf("slice-len", "Slice(bm of %d words, %d, %d)%s has %d words, want %d", len(keep), from, to, what, len(r), (n+63)/64)
 	}
 	for j := 0; j < 64*len(r); j++ {
 		want := uint64(0)
@@ -175,7 +378,7 @@ func checkSlice(keep []uint64, from, to int32) (f *vk.Failure) {
 			want = bit(keep, int(from)+j)
 		}
 		if bit(r, j) != want {
-			return vk.Failf("slice-bit", "Slice(bm=%#x, %d, %d): bit %d = %d, want %d", keep, from, to, j, bit(r, j), want)
+			return vk.Failf("slice-bit", "Slice(bm=%s, %d, %d): bit %d = %d, want %d", showWords(keep), from, to, j, bit(r, j), want)
 		}
 	}
 	for i := range keep {
@@ -211,6 +414,9 @@ func checkMaxSlice(v int, from, to int32) *vk.Failure {
 	}
 	words := gen.UseMax(v)
 	var r []uint64
+	if int64(to)-int64(from) > 1<<28 {
+		defer func() { r = nil; runtime.GC() }() // a result of many MiB is released before the next huge case allocates
+	}
 	if f := vk.Try(fmt.Sprintf("Slice(2^25 words (description %d), %d, %d)", v, from, to), func() { r = bitmap.Slice(words, from, to) }); f != nil {
 		return f
 	}
@@ -282,18 +488,164 @@ func checkMaxGetw(v int, w int32) *vk.Failure {
 	return nil
 }
 
+// ---- Join of the longest lists whose result Getw can still address: 2^31/w values, 2^31 result bits.
+//
+// w = 64: the values are the maximum bitmap itself (description v), the result must equal it.
+// w < 64: a shared, almost untouched array of 2^31/w values holds the few non-zero values of maxJoinDesc.
+
+// maxJoinDesc lists the non-zero values (index -> value) of description v for width w < 64.
+//
+//	0: values that fit and values with bits above the width, mixed, at the first, the middle and the last indexes
+//	1: bits above the width only at indexes 3 mod 4; the last three values are 0
+//	2: every value fits; the very last value is all ones (bit 2^31-1 of the result is set)
+func maxJoinDesc(v int, w int32) map[int64]uint64 {
+	n := int64(1) << 31 / int64(w)
+	fit := func(x uint64) uint64 { return low(x, w) }
+	above := func(x uint64) uint64 { return x &^ (uint64(1)<<uint(w) - 1) }
+	ones := ^uint64(0)
+	switch v {
+	case 0:
+		return map[int64]uint64{
+			0: fit(0x9d5c0fb1e3a64827) | above(0x6a09e667f3bcc908), 1: fit(ones), 2: above(ones), 5: 1,
+			n/2 - 1: fit(0xbb67ae8584caa73b) | 1, n / 2: ones, n/2 + 1: above(1<<uint(w)) | fit(2),
+			n - 3: above(1<<uint(w)) | 1, n - 2: fit(ones), n - 1: fit(0x3c6ef372fe94f82b)&^(1<<uint(w-1)) | above(1<<63),
+		}
+	case 1:
+		return map[int64]uint64{
+			0: fit(ones), 3: 1<<uint(w) | 1, 7: ones, 8: fit(0x5555555555555555),
+			n / 2: 1, n/2 + 3: above(ones), n - 5: ones, n - 4: fit(ones),
+		}
+	}
+	return map[int64]uint64{1: fit(0xa54ff53a5f1d36f1), 2: 1, n / 2: fit(ones), n - 2: 1, n - 1: fit(ones)}
+}
+
+var maxVals []uint64 // shared input of the w < 64 cases; all zero between two cases
+
+func maxValues(n int64) []uint64 {
+	if int64(len(maxVals)) < n {
+		maxVals = nil
+		maxVals = make([]uint64, n) // fresh pages: untouched until written
+	}
+	return maxVals[:n:n]
+}
+
+func checkMaxJoin(v int, w int32) (f *vk.Failure) {
+	if v < 0 || v >= gen.MaxVariants || w < 8 || w > 64 || 64%w != 0 {
+		return nil // (w < 8 would need lists of 4 GiB and more)
+	}
+	n := int64(1) << 31 / int64(w)
+	var r []uint64
+	defer func() { r = nil; runtime.GC() }() // the 256 MiB result is released before the next huge case allocates
+	var values []uint64
+	var desc map[int64]uint64
+	if w == 64 {
+		values = gen.UseMax(v)
+		desc = map[int64]uint64{}
+		for _, k := range gen.MaxSetWords() {
+			desc[int64(k)] = gen.MaxWord(k)
+		}
+	} else {
+		values = maxValues(n)
+		desc = maxJoinDesc(v, w)
+		for i, x := range desc {
+			values[i] = x
+		}
+		defer func() {
+			for i, x := range desc {
+				if values[i] != x && f == nil {
+					f = vk.Failf("join-mutates", "Join modified values[%d] of the list of %d values", i, n)
+				}
+				values[i] = 0
+			}
+			for i := int64(7); i < n && f == nil; i += 1<<16 + 1 {
+				if _, set := desc[i]; !set && values[i] != 0 {
+					f = vk.Failf("join-mutates", "Join modified values[%d] of the list of %d values", i, n)
+				}
+			}
+		}()
+	}
+	if f := vk.Try(fmt.Sprintf("Join(%d values (description %d), w=%d)", n, v, w), func() { r = bitmap.Join(values, w) }); f != nil {
+		return f
+	}
+	if len(r) != gen.MaxWords {
+		return vk.Failf("join-len", "Join(%d values (description %d), w=%d) has %d words, want %d", n, v, w, len(r), gen.MaxWords)
+	}
+	want := map[int64]uint64{}
+	for i, x := range desc {
+		for k := int64(0); k < int64(w); k++ {
+			if x>>uint(k)&1 == 1 {
+				q := i*int64(w) + k
+				want[q>>6] |= 1 << uint(q&63)
+			}
+		}
+	}
+	seen := 0
+	for j, x := range r {
+		if x == 0 {
+			continue
+		}
+		if x != want[int64(j)] {
+			return vk.Failf("join-bit", "Join(%d values (description %d), w=%d): word %d = %#x, want %#x", n, v, w, j, x, want[int64(j)])
+		}
+		seen++
+	}
+	if seen != len(want) {
+		for j, x := range want {
+			if r[j] != x {
+				return vk.Failf("join-bit", "Join(%d values (description %d), w=%d): word %d = %#x, want %#x", n, v, w, j, r[j], x)
+			}
+		}
+	}
+	for i := range desc {
+		for _, d := range []int64{-1, 0, 1} {
+			if j := i + d; j >= 0 && j < n {
+				var g uint64
+				if f := vk.Try(fmt.Sprintf("Getw(Join(%d values, w=%d), i=%d, w=%d)", n, w, j, w), func() { g = bitmap.Getw(r, int32(j), w) }); f != nil {
+					return f
+				}
+				if g != low(desc[j], w) {
+					return vk.Failf("join-getw", "Getw(Join(%d values (description %d), w=%d), %d, %d) = %#x, want %#x", n, v, w, j, w, g, low(desc[j], w))
+				}
+			}
+		}
+	}
+	if w == 64 {
+		if k, bad := gen.MaxBitmapDamage(); bad {
+			return vk.Failf("join-mutates", "Join modified word %d of the 2^25-word list", k)
+		}
+	}
+	// (the result is not written to: handing back the list itself for w = 64 would be legitimate, see checkJoin)
+	return nil
+}
+
 func check(c Case) *vk.Failure {
 	switch c.Op {
 	case "maxslice":
 		return checkMaxSlice(c.Max, c.From, c.To)
 	case "maxgetw":
 		return checkMaxGetw(c.Max, c.W)
+	case "maxjoin":
+		return checkMaxJoin(c.Max, c.W)
 	case "join":
-		return checkJoin(c.Values, c.W)
+		if c.W < 1 || c.W > 64 || 64%c.W != 0 {
+			return nil
+		}
+		return checkJoin(c.values(), c.W)
 	case "getw":
+		if c.W < 1 || c.W > 64 || 64%c.W != 0 {
+			return nil
+		}
 		return checkGetw(c.Words, c.W)
 	}
-	return checkSlice(c.Words, c.From, c.To)
+	return checkSlice(c.words(), c.From, c.To)
+}
+
+func octave(n int) string {
+	k := 0
+	for n>>uint(k+1) > 0 {
+		k++
+	}
+	return fmt.Sprintf("2^%d..", k)
 }
 
 func classify(c Case) (bool, []string) {
@@ -301,18 +653,32 @@ func classify(c Case) (bool, []string) {
 	switch c.Op {
 	case "maxslice", "maxgetw":
 		return true, append(labels, "maximum-bitmap(2^25 words)")
+	case "maxjoin":
+		return true, append(labels, "maximum-list(2^31 result bits)")
 	case "join":
 		labels = append(labels, fmt.Sprintf("w:%d", c.W))
-		above := false
-		for _, v := range c.Values {
+		vals := c.values()
+		nAbove, only3 := 0, true
+		for i, v := range vals {
 			if low(v, c.W) != v {
-				above = true
+				nAbove++
+				only3 = only3 && i%4 == 3
 			}
 		}
-		if above {
-			labels = append(labels, "bits-above-width")
+		above := nAbove > 0
+		switch {
+		case above && nAbove == len(vals):
+			labels = append(labels, "bits-above-width", "bits-above-width:every-value")
+		case above:
+			labels = append(labels, "bits-above-width", "bits-above-width:some-values-only")
+			if only3 {
+				labels = append(labels, "bits-above-width:only-at-indexes-3-mod-4")
+			}
 		}
-		return c.W >= 4 && len(c.Values) >= 2 && (above || c.W == 64), labels
+		if len(vals) > 20 {
+			labels = append(labels, "join-len:"+octave(len(vals)))
+		}
+		return c.W >= 4 && len(vals) >= 2 && (above || c.W == 64), labels
 	case "getw":
 		labels = append(labels, fmt.Sprintf("w:%d", c.W))
 		has0, has1 := false, false
@@ -323,6 +689,9 @@ func classify(c Case) (bool, []string) {
 		return c.W >= 4 && has0 && has1, labels
 	}
 	n := c.To - c.From
+	if n > 768 {
+		labels = append(labels, "range-len:"+octave(int(n)))
+	}
 	switch {
 	case n == 0:
 		labels = append(labels, "range:empty")
@@ -338,8 +707,42 @@ func classify(c Case) (bool, []string) {
 	return c.From%64 != 0 && multi, labels
 }
 
+// genLen draws a length without holes between the small region and max: half of the draws are <= 40, the others pick
+// an octave [2^k, 2^(k+1)) uniformly and a length uniformly inside it.
+func genLen(t *rapid.T, max int, label string) int {
+	if gen.Chance(t, 1, 2, label+".small") {
+		return gen.Uniform(t, min(40, max)+1, label)
+	}
+	top := 5
+	for 1<<uint(top+1) <= max {
+		top++
+	}
+	k := 5 + gen.Uniform(t, top-4, label+".octave")
+	return min(1<<uint(k)+gen.Uniform(t, 1<<uint(k), label), max)
+}
+
+var widePatterns = []struct {
+	mod  int
+	mask uint64
+}{{1, 0}, {1, 1}, {4, 8}, {4, 7}, {2, 1}, {2, 2}, {3, 1}, {3, 4}, {4, 1}, {4, 2}, {4, 4}, {8, 0x80}, {8, 0x88}, {8, 0x08}, {5, 0x10}, {16, 0x8000}, {16, 0x8888}, {64, 1 << 63}}
+
+func genList(t *rapid.T, maxN int) *ListSpec {
+	s := &ListSpec{N: genLen(t, maxN, "n"), Key: vk.U64(gen.U64(t, "key")), Low: gen.Uniform(t, 4, "low"), High: gen.Uniform(t, 5, "high")}
+	switch c := gen.Uniform(t, 8, "wide"); c {
+	case 0: // bits above the width in exactly one value
+		s.Mod, s.Mask = 0, vk.U64(gen.Uniform(t, max(s.N, 1), "only"))
+	case 1: // a random residue set
+		s.Mod = 2 + gen.Uniform(t, 15, "mod")
+		s.Mask = vk.U64(gen.U64(t, "mask") & (1<<uint(s.Mod) - 1))
+	default:
+		p := widePatterns[gen.Uniform(t, len(widePatterns), "pattern")]
+		s.Mod, s.Mask = p.mod, vk.U64(p.mask)
+	}
+	return s
+}
+
 func genCase(t *rapid.T) Case {
-	switch gen.Uniform(t, 5, "op") {
+	switch gen.Uniform(t, 8, "op") {
 	case 0, 1:
 		w := widths[gen.Uniform(t, len(widths), "w")]
 		n := gen.Len(t, 200, "n")
@@ -361,10 +764,33 @@ func genCase(t *rapid.T) Case {
 			}
 		}
 		return Case{Op: "join", W: w, Values: vals, Class: []string{"ones", "1<<w", "random", "random"}[style]}
-	case 2:
+	case 2, 3: // element-wise mixes (only some values carry bits above the width), lengths without holes up to the long lists
+		w := widths[gen.Uniform(t, len(widths), "w")]
+		return Case{Op: "join", W: w, List: genList(t, vk.Pick(20000, 120000)), Class: "described-list"}
+	case 4:
 		w := widths[gen.Uniform(t, len(widths), "w")]
 		words, style := gen.Bitmap(t, 12, "bm")
 		return Case{Op: "getw", W: w, Words: words, Class: style}
+	case 5: // long bitmaps, ranges of every length and alignment
+		big := gen.BigSpec{N: genLen(t, vk.Pick(8192, 32768), "bm.n"), Key: gen.U64(t, "bm.key"), Style: gen.Uniform(t, 6, "bm.style")}
+		nbits := 64 * big.N
+		var from, to int
+		switch gen.Uniform(t, 4, "rclass") {
+		case 0: // a length from every octave, anywhere
+			n := min(genLen(t, max(nbits, 1), "rlen"), nbits)
+			from = gen.Uniform(t, nbits-n+1, "from")
+			to = from + n
+		case 1: // ... ending at the end of the bitmap
+			from = nbits - min(genLen(t, max(nbits, 1), "rlen"), nbits)
+			to = nbits
+		case 2: // aligned start, any end
+			from = 64 * gen.Uniform(t, big.N+1, "a")
+			to = from + gen.Uniform(t, nbits-from+1, "n")
+		default:
+			a, b := gen.Uniform(t, nbits+1, "a"), gen.Uniform(t, nbits+1, "b")
+			from, to = min(a, b), max(a, b)
+		}
+		return Case{Op: "slice", Big: &big, From: int32(from), To: int32(to), Class: "described-bitmap"}
 	}
 	words, style := gen.Bitmap(t, vk.Pick(12, 100), "bm")
 	nbits := 64 * len(words)
@@ -438,14 +864,63 @@ func TestGrid(t *testing.T) {
 			}
 		}
 	}
-	// very long value lists (size thresholds of any batched / parallel implementation)
-	for _, n := range []int{65535, 65536, 65537, 65543, 100001} {
-		for _, w := range widths {
-			vals := make(vk.Words, n)
-			for i := range vals {
-				vals[i] = vk.Mix(uint64(n)*131 + uint64(i) + uint64(w))
+	// element-wise mixes: bits above the width only in the values at some residues of the index (2, 3, 4, 8), or in
+	// exactly one value; every length 0..24 and the lengths around 32 and 64
+	ns := []int{31, 32, 33, 63, 64, 65}
+	for n := 0; n <= 24; n++ {
+		ns = append(ns, n)
+	}
+	for _, w := range widths[:6] {
+		for _, n := range ns {
+			var pats [][2]uint64
+			for _, m := range []uint64{2, 3, 4} {
+				for r := uint64(0); r < m; r++ {
+					pats = append(pats, [2]uint64{m, 1 << r})
+				}
 			}
-			checker.Run(t, Case{Op: "join", W: w, Values: vals, Class: "grid-long-list"})
+			pats = append(pats, [2]uint64{8, 0x08}, [2]uint64{8, 0x80}, [2]uint64{4, 7}, [2]uint64{0, 0}, [2]uint64{0, uint64(n / 2)}, [2]uint64{0, uint64(max(n-1, 0))})
+			for pi, pt := range pats {
+				for _, high := range []int{0, 2} {
+					spec := &ListSpec{N: n, Key: vk.U64(vk.Mix(uint64(w)<<32 | uint64(n)<<8 | uint64(pi))), Low: (n + pi) % 4, High: high, Mod: int(pt[0]), Mask: vk.U64(pt[1])}
+					checker.Run(t, Case{Op: "join", W: w, List: spec, Class: "grid-mix"})
+				}
+			}
+		}
+	}
+	// list lengths without holes: 2^k-1, 2^k, 2^k+1 and two lengths inside every octave up to 2^16, every width;
+	// which values carry bits above the width rotates through the patterns (all, none, index 3 mod 4, ...)
+	rot := 0
+	for k := 5; k <= 15; k++ {
+		for j, n := range []int{1<<uint(k) - 1, 1 << uint(k), 1<<uint(k) + 1, 1<<uint(k) + 1 + int(vk.Mix(uint64(k)*977+vk.Seed())%(1<<uint(k)-2)), 1<<uint(k) + 1 + int(vk.Mix(uint64(k)*983+vk.Seed())%(1<<uint(k)-2))} {
+			for _, w := range widths {
+				if k >= 13 && j >= 3 && w >= 16 && (k+j+int(w>>4))%2 == 0 {
+					continue // (the longest random lengths: every other wide width)
+				}
+				pt := widePatterns[rot%len(widePatterns)]
+				rot++
+				spec := &ListSpec{N: n, Key: vk.U64(vk.Mix(uint64(n)*131 + uint64(w))), Low: rot % 3 % 2, High: rot % 5, Mod: pt.mod, Mask: vk.U64(pt.mask)}
+				checker.Run(t, Case{Op: "join", W: w, List: spec, Class: "grid-octaves"})
+			}
+		}
+	}
+	// very long value lists (size thresholds of any batched / parallel implementation); a process that varies
+	// GOMAXPROCS evaluates some of them under every setting
+	for li, n := range []int{65535, 65536, 65537, 65543, 100001} {
+		for wi, w := range widths {
+			vals := &ListSpec{N: n, Key: vk.U64(uint64(n)*131 + uint64(w)), Mod: 1, Mask: 1} // every value random, bits above the width everywhere
+			run := func() { checker.Run(t, Case{Op: "join", W: w, List: vals, Class: "grid-long-list"}) }
+			if vk.ProcsVaried() && (li == 3 || li == 4) && wi%3 == li%3 {
+				vk.ProcsSweep(run)
+			} else {
+				run()
+			}
+			if wi%2 == li%2 { // ... and bits above the width only at indexes 3 mod 4 / in one value in the middle
+				mix := &ListSpec{N: n, Key: vk.U64(uint64(n)*137 + uint64(w)), Mod: 4, Mask: 8, High: wi % 5}
+				if wi%3 == 0 {
+					mix.Mod, mix.Mask = 0, vk.U64(n/2)
+				}
+				checker.Run(t, Case{Op: "join", W: w, List: mix, Class: "grid-long-list"})
+			}
 		}
 	}
 	big := make(vk.Words, 1<<14+3)
@@ -453,9 +928,31 @@ func TestGrid(t *testing.T) {
 		big[i] = vk.Mix(uint64(i) * 7)
 	}
 	for _, r := range [][2]int32{{0, int32(64 * len(big))}, {1, int32(64*len(big)) - 1}, {63, 64*1024 + 63}, {5, 64*4096 + 5}, {64 * 100, 64 * 16000}} {
-		checker.Run(t, Case{Op: "slice", Words: big, From: r[0], To: r[1], Class: "grid-long-bitmap"})
+		run := func() { checker.Run(t, Case{Op: "slice", Words: big, From: r[0], To: r[1], Class: "grid-long-bitmap"}) }
+		if r[0] == 1 || r[0] == 5 { // (a process that varies GOMAXPROCS evaluates these two under every setting)
+			vk.ProcsSweep(run)
+		} else {
+			run()
+		}
+	}
+	// range lengths without holes: 2^k-1, 2^k, 2^k+1 bits and two lengths inside every octave from 2^9 to 2^20 bits, each
+	// at five alignments of the start (aligned, 1, 63, two that rotate through 2..62); the bitmap ends 0..2 words
+	// after the range, so the range often ends in the last word; contents rotate through the described styles
+	rot = 0
+	for k := 9; k <= 19; k++ {
+		for _, n := range []int{1<<uint(k) - 1, 1 << uint(k), 1<<uint(k) + 1, 1<<uint(k) + 1 + int(vk.Mix(uint64(k)*991+vk.Seed())%(1<<uint(k)-2)), 1<<uint(k) + 1 + int(vk.Mix(uint64(k)*997+vk.Seed())%(1<<uint(k)-2))} {
+			for ai := 0; ai < 5; ai++ {
+				rot++
+				shift := []int{0, 1, 63, 2 + rot*7%61, 2 + rot*11%61}[ai]
+				from := 64*(rot%3) + shift
+				nw := (from+n+63)/64 + rot%4%3
+				spec := &gen.BigSpec{N: nw, Key: vk.Mix(uint64(n)<<8 | uint64(ai)), Style: []int{0, 2, 0, 3, 5, 0, 1}[rot%7]}
+				checker.Run(t, Case{Op: "slice", Big: spec, From: int32(from), To: int32(from + n), Class: "grid-octaves"})
+			}
+		}
 	}
 	vk.MarkExhaustive("Slice: 12 bitmaps of <= 3 words x all (from,to); Join: all widths x lengths 0..20 x 3 value styles; Getw: all widths on those results at every index")
+	vk.SetExtra("sweeps", "Join: widths < 64 x lengths 0..24,31..33,63..65 x bits above the width at one residue of the index mod 2/3/4/8 or in one value; list lengths 2^k-1,2^k,2^k+1 and 2 more per octave for k=5..15 plus 65535..100001; Slice range lengths likewise for k=9..19 x 5 start alignments")
 }
 
 // TestLast runs at the very end of the process: huge inputs (the maximum bitmap / string) and the regression cases of that size come last, so that
@@ -464,6 +961,8 @@ func TestLast(t *testing.T) {
 	vk.SetPhase("last")
 	// exactly 2^31 bits: the largest positions an int32 holds
 	top := int32(gen.MaxTop)
+	gen.UseMax(0)
+	maxValues(int64(1) << 31 / int64(vk.Pick(32, 8))) // (both huge inputs are allocated before anything huge has been freed: fresh, untouched pages)
 	for v := 0; v < gen.MaxVariants; v++ {
 		gen.UseMax(v)
 		rs := [][2]int32{{top - 100, top}, {top - 64, top}, {top - 63, top}, {top - 62, top}, {top - 1, top}, {top, top}, {top - 130, top - 3}, {top - 195, top}, {top - 255, top}, {top - 129, top - 1}, {top - 4000, top}, {0, 130}}
@@ -479,9 +978,27 @@ func TestLast(t *testing.T) {
 			checker.Run(t, Case{Op: "maxgetw", Max: v, W: w, Class: "grid-maximum"})
 		}
 	}
-	if vk.Pick(0, 1) == 1 { // bit-by-bit over 2^31 positions: seconds, thorough only
+	// the whole bitmap (the library copies bit by bit over 2^31 positions: seconds). Quick: one range longer than
+	// 2^31-64 bits, start and description chosen by the seed; thorough: two more
+	q := vk.Mix(vk.Seed() ^ 0xc14)
+	checker.Run(t, Case{Op: "maxslice", Max: int(q % gen.MaxVariants), From: []int32{0, 1, 31, 62}[q>>8&3], To: top, Class: "grid-maximum-whole"})
+	if vk.Thorough() {
 		checker.Run(t, Case{Op: "maxslice", Max: 0, From: 0, To: top, Class: "grid-maximum-whole"})
 		checker.Run(t, Case{Op: "maxslice", Max: 2, From: 63, To: top, Class: "grid-maximum-whole"})
+	}
+	// Join of the longest lists whose result Getw addresses (2^31 result bits): 2^25 values of 64 bits - the maximum
+	// bitmap itself - and 2^26 values of 32 bits; thorough: every description, and 2^27 / 2^28 values of 16 / 8 bits
+	if vk.Thorough() {
+		for v := 0; v < gen.MaxVariants; v++ {
+			for _, w := range []int32{64, 32} {
+				checker.Run(t, Case{Op: "maxjoin", Max: v, W: w, Class: "grid-maximum"})
+			}
+		}
+		checker.Run(t, Case{Op: "maxjoin", Max: 1, W: 16, Class: "grid-maximum"})
+		checker.Run(t, Case{Op: "maxjoin", Max: 0, W: 8, Class: "grid-maximum"})
+	} else {
+		checker.Run(t, Case{Op: "maxjoin", Max: int(q >> 16 % gen.MaxVariants), W: 64, Class: "grid-maximum"})
+		checker.Run(t, Case{Op: "maxjoin", Max: int(q >> 24 % gen.MaxVariants), W: 32, Class: "grid-maximum"})
 	}
 	checker.RegressLast(t)
 }
